@@ -52,6 +52,8 @@ def _data(case):
     X = np.array(case["X"], dtype=np.float64)
     n, d = X.shape
     y = X @ np.array(case["beta"]) + case["b"] + case["amp"] * np.array(case["noise"][:n])
+    for i, v in case.get("outliers", []):
+        y[i % n] = v                    # a few sentinel / recording-error targets far away from the rest
     w = None if case["w"] is None else np.array(case["w"][:n], dtype=np.float64)
     return X, y, w
 
@@ -193,6 +195,8 @@ def _cases(draw, tier="quick", weighted=None, for_score=False):
                 fit_intercept=draw(st.sampled_from([True, True, True, False])), positive=draw(st.sampled_from([False, False, False, True])),
                 max_iter=draw(st.sampled_from([10, 50, 300])),
                 w=[draw(st.integers(1, 4)) for _ in range(60)] if has_w else None)
+    if not for_score and not weighted and draw(st.integers(0, 3)) == 0:
+        case["outliers"] = [[draw(st.integers(0, 59)), draw(st.sampled_from([1e6, -1e6, 1e4]))] for _ in range(draw(st.integers(1, 3)))]
     if for_score:
         mz = draw(st.integers(1, 10))
         case["Z"] = [[draw(_g) for _ in range(d)] for _ in range(mz)]
